@@ -10,7 +10,7 @@
 (* products against exponential growth.                                    *)
 (***************************************************************************)
 EXTENDS Integers, Sequences, TLC, Json, Forms
-CONSTANTS DEPTH, MAXDIG
+CONSTANTS DEPTH, MAXDIG, MIXED
 
 NREG == 6
 Reg == 1..NREG
@@ -87,11 +87,45 @@ Observe ==
   LET ev == IF w = 1 THEN [op |-> "hash", a |-> R(a)] ELSE [op |-> "cmp", form |-> cf, a |-> R(a), b |-> R(b)] IN
   /\ prog' = [prog EXCEPT !.steps = Append(@, ev)] /\ UNCHANGED <<dg, sc>>
 
+\* ---- MIXED programs: rounding, division, remainder, roots and reciprocal between the exact operations, so that every
+\*      operation also meets operands that an earlier operation of another kind produced (whatever scale, trailing zeros
+\*      or length it left them with).  Each step is judged by the verdict operator of its own operation.
+ModeSet == {"Up", "Down", "Ceiling", "Floor", "HalfUp", "HalfDown", "HalfEven"}
+RoundStep ==
+  \E a \in {Pick(Reg)}, d \in {Pick(Reg)}, w \in {Pick(1..5)}, t \in {Pick(-6..12)}, p \in {Pick(1..30)}, m \in {Pick(ModeSet)},
+     cf \in {Pick({"round_decimal", "round_decimal_ref_ref", "round_decimal_ref_dref", "round_with_context"})} :
+  LET ev == CASE w = 1 -> [op |-> "with_scale_round", a |-> R(a), t |-> t, m |-> m, dst |-> d]
+              [] w = 2 -> [op |-> "with_precision_round", a |-> R(a), p |-> p, m |-> m, dst |-> d]
+              [] w = 3 -> [op |-> "with_prec", a |-> R(a), p |-> p, dst |-> d]
+              [] w = 4 -> [op |-> "round", a |-> R(a), t |-> t, dst |-> d]
+              [] OTHER -> [op |-> "ctx_round", form |-> cf, a |-> R(a), p |-> p, m |-> m, dst |-> d]
+  \* (no growth guard here: the sizes after a rounding depend on the values; the driver skips a step whose operands have
+  \*  grown beyond its limits, and the register bounds below are reset to a nominal size)
+  IN /\ prog' = [prog EXCEPT !.steps = Append(@, ev)]
+     /\ dg' = [dg EXCEPT ![d] = 40] /\ sc' = [sc EXCEPT ![d] = 12]
+FuncStep ==
+  \E a \in {Pick(Reg)}, b \in {Pick(Reg)}, d \in {Pick(Reg)}, w \in {Pick(1..7)}, p \in {Pick(1..24)}, m \in {Pick(ModeSet)},
+     df \in {Pick({"val_val", "val_ref", "ref_val", "ref_ref", "val_i32", "ref_u8", "assign_i64", "assign_ru16", "val_ru64"})}, rf \in {Pick(RemForms)},
+     k2 \in {Pick(SmallInts)},
+     sf \in {Pick({"ctx", "dref_ctx", "dref_abs", "dref_copysign"})} :
+  LET ev == CASE w = 1 -> [op |-> "sqrt", form |-> sf, a |-> R(a), p |-> p, m |-> m, dst |-> d]
+              [] w = 2 -> [op |-> "cbrt", form |-> "ctx", a |-> R(a), p |-> p, m |-> m, dst |-> d]
+              [] w = 3 -> [op |-> "inverse", form |-> "ctx", a |-> R(a), p |-> p, m |-> m, dst |-> d]
+              [] w \in {4, 5} -> [op |-> "div", form |-> df, a |-> R(a),
+                                   b |-> (IF KindsOf[df][2] \in DecKinds THEN R(b) ELSE IntFor(KindsOf[df][2], k2)),
+                                   dst |-> (IF KindsOf[df][1] = "assign" THEN a ELSE d)]
+              [] OTHER -> [op |-> "rem", form |-> rf, a |-> R(a), b |-> R(b), dst |-> (IF rf = "assign_ref" THEN a ELSE d)]
+      dstr == IF (w \in {4, 5} /\ KindsOf[df][1] = "assign") \/ (w > 5 /\ rf = "assign_ref") THEN a ELSE d
+  IN /\ prog' = [prog EXCEPT !.steps = Append(@, ev)]
+     /\ dg' = [dg EXCEPT ![dstr] = 40] /\ sc' = [sc EXCEPT ![dstr] = 12]
+
 Next ==
   IF Len(prog.loads) < NREG THEN Load ELSE
   /\ Len(prog.steps) < DEPTH
-  /\ \E k \in {Pick(1..20)}, uf \in {Pick(1..3)} :
-     CASE k <= 4 -> Binary("add", AddForms)
+  /\ \E k \in {Pick(IF MIXED THEN 1..28 ELSE 1..20)}, uf \in {Pick(1..3)} :
+     CASE k > 24 -> FuncStep
+       [] k > 20 -> RoundStep
+       [] k <= 4 -> Binary("add", AddForms)
        [] k <= 7 -> Binary("sub", SubForms)
        [] k <= 10 -> Binary("mul", MulForms)
        [] k = 11 -> Unary("neg", <<"val", "ref", "dref">>[uf], Id, Id)
